@@ -271,3 +271,41 @@ MUTANTS += [
     m("c09-repr-word", ["C09"], OVF, 'repr_string = "Binary 4"', 'repr_string = "Binary4"'),
     m("c09-labels-dropped", ["C09"], OVF, "            vdims=vdims,\n            unit=unit,\n        )", "            unit=unit,\n        )"),
 ]
+
+MUTANTS += [
+    # ------------------------------------------------------------------ C11
+    m("c11-fftn-ifftshift", ["C11"], F, "        ft = spfft.fftshift(\n            spfft.fftn(self.array, axes=axes, **kwargs),\n            axes=axes,\n        )", "        ft = spfft.ifftshift(\n            spfft.fftn(self.array, axes=axes, **kwargs),\n            axes=axes,\n        )"),
+    m("c11-ifftn-order", ["C11"], F, "        ft = spfft.ifftn(\n            spfft.ifftshift(self.array, axes=axes),\n            axes=axes,", "        ft = spfft.ifftn(\n            spfft.fftshift(self.array, axes=axes),\n            axes=axes,"),
+    m("c11-rfftn-shift-all", ["C11"], F, "            spfft.rfftn(self.array, axes=axes, **kwargs),\n            axes=axes[:-1],", "            spfft.rfftn(self.array, axes=axes, **kwargs),\n            axes=axes,"),
+    m("c11-irfftn-no-shape", ["C11"], F, "            axes=axes,\n            s=shape,\n", "            axes=axes,\n"),
+    m("c11-fftn-component-axis", ["C11"], F, "        axes = range(self.mesh.region.ndim)\n        ft = spfft.fftshift(\n            spfft.fftn(", "        axes = range(self.mesh.region.ndim + 1)\n        ft = spfft.fftshift(\n            spfft.fftn("),
+    m("c11-rfftn-mesh", ["C11"], F, "mesh = self.mesh.fftn(rfft=True)", "mesh = self.mesh.fftn()"),
+    m("c11-single-cell-offcentre", ["C11"], M, "                p1.append(-0.5 / self.cell[i])\n                p2.append(0.5 / self.cell[i])\n                n.append(1)\n            else:\n                if rfft", "                p1.append(0)\n                p2.append(1 / self.cell[i])\n                n.append(1)\n            else:\n                if rfft"),
+    m("c11-freq-cell-axis", ["C11"], M, "freqs = spfft.fftfreq(self.n[i], self.cell[i])", "freqs = spfft.fftfreq(self.n[i], self.cell[0])"),
+    m("c11-rfft-first-axis", ["C11"], M, "if rfft and i == self.region.ndim - 1:", "if rfft and i == 0:"),
+    m("c11-dfreq", ["C11"], M, "dfreq = abs(freqs[1] - freqs[0]) / 2\n                p1.append(min(freqs) - dfreq)\n                p2.append(max(freqs) + dfreq)\n                n.append(len(freqs))\n\n        kdims = [f\"k_{d}\"", "dfreq = abs(freqs[1] - freqs[0])\n                p1.append(min(freqs) - dfreq)\n                p2.append(max(freqs) + dfreq)\n                n.append(len(freqs))\n\n        kdims = [f\"k_{d}\""),
+    m("c11-kdims-prefix", ["C11"], M, 'kdims = [f"k_{d}" for d in self.region.dims]', 'kdims = [f"k{d}" for d in self.region.dims]'),
+    m("c11-kunits-strip", ["C11"], M, 'u[1:-8] if u.startswith("(") and u.endswith(")$^{-1}$") else u', 'u[1:-7] if u.startswith("(") and u.endswith(")$^{-1}$") else u'),
+    m("c11-ft-strip", ["C11"], F, 'vdim[3:] if vdim.startswith("ft_") else vdim for vdim in self.vdims', 'vdim[2:] if vdim.startswith("ft_") else vdim for vdim in self.vdims'),
+    m("c11-ifftn-default-shape", ["C11"], M, "shape[-1] = (self.n[-1] - 1) * 2", "shape[-1] = self.n[-1] * 2 - 1"),
+    m("c11-ifftn-not-centred", ["C11"], M, "        mesh.translate(-mesh.region.center, inplace=True)\n", "        mesh.translate(-mesh.region.center)\n"),
+    m("c11-shape-last-unchecked", ["C11"], M, "if shape[-1] // 2 + 1 != self.n[-1]:", "if shape[-1] // 2 + 1 > self.n[-1]:"),
+    m("c11-fftn-drops-unit", ["C11"], F, "            vdims=new_vdims,\n            unit=self.unit,\n", "            vdims=new_vdims,\n"),
+    m("c11-mapping-old-key", ["C11"], F, "new_vdim_mapping[new_vdim] = f\"k_{self.vdim_mapping[vdim]}\"", "new_vdim_mapping[vdim] = f\"k_{self.vdim_mapping[vdim]}\""),
+]
+
+MUTANTS += [
+    # ------------------------------------------------------------------ C14
+    m("c14-setter-no-inside-test", ["C14"], M, "            if value not in self.region:\n                raise ValueError(f\"Subregion {key} is not in the mesh region.\")\n", ""),
+    m("c14-setter-no-alignment-test", ["C14"], M, "if not self.is_aligned(self.__class__(region=value, cell=self.cell)):", "if False:"),
+    m("c14-setter-store-first", ["C14"], M, "        # Check if subregions are aligned with the mesh\n        for key, value in subregions.items():", "        self._subregions = dict(subregions)\n        # Check if subregions are aligned with the mesh\n        for key, value in subregions.items():"),
+    m("c14-setter-keeps-caller-objects", ["C14"], M, "        self._subregions = {\n            name: df.Region(\n                p1=sr.pmin,\n                p2=sr.pmax,\n                dims=self.region.dims,\n                units=self.region.units,\n                tolerance_factor=self.region.tolerance_factor,\n            )\n            for name, sr in subregions.items()\n        }", "        self._subregions = dict(subregions)"),
+    m("c14-setter-own-units", ["C14"], M, "                dims=self.region.dims,\n                units=self.region.units,\n                tolerance_factor=self.region.tolerance_factor,\n            )\n            for name, sr in subregions.items()", "                dims=self.region.dims,\n                units=sr.units,\n                tolerance_factor=self.region.tolerance_factor,\n            )\n            for name, sr in subregions.items()"),
+    m("c14-aligned-only-pmin", ["C14"], M, 'for i in ["pmin", "pmax"]:', 'for i in ["pmin"]:'),
+    m("c14-aligned-cells-unchecked", ["C14"], M, "        if not np.allclose(self.cell, other.cell, atol=tolerance):\n            return False\n", ""),
+    m("c14-aligned-remainder", ["C14"], M, "            rem = np.remainder(abs(diff), self.cell)\n", "            rem = np.remainder(abs(diff), 2 * self.cell)\n"),
+    m("c14-todict-misses-units", ["C14"], R, '            "units": self.units,\n', ""),
+    m("c14-load-bypasses-setter", ["C14"], IO, "self.subregions = {key: df.Region(**val) for key, val in subregions.items()}", "self._subregions = {key: df.Region(**val) for key, val in subregions.items()}"),
+    m("c14-getitem-name-cell", ["C14", "C07"], M, "return self.__class__(region=self.subregions[item], cell=self.cell)", "return self.__class__(region=self.subregions[item], n=self.n)"),
+    m("c14-init-bypasses-setter", ["C14", "C13"], M, "        self.subregions = subregions\n", "        self._subregions = subregions or {}\n"),
+]
